@@ -67,6 +67,7 @@ pub fn show_obs(o: &Obs) -> String {
 
 /// runs the history on the real e-graph; one output per `Q`
 pub fn run_history<L: HLang>(ops: &[Op], check_each: bool) -> Result<Vec<String>, String> {
+    fresh_noise(&enc_ops(ops));
     let mut eg: EGraph<L> = EGraph::default();
     let mut tracked: Vec<AppliedId> = Vec::new();
     let mut outs = Vec::new();
@@ -134,7 +135,8 @@ fn small_fv(t: &ATerm) -> bool {
 }
 
 pub fn gen_history(rng: &mut Rng) -> (Vec<Op>, &'static str) {
-    let stream = match rng.below(21) {
+    let stream = match rng.below(22) {
+        21 => "latered2",
         19 | 20 => "migrate",
         16 => "collapse",
         17 | 18 => "shadow",
@@ -149,10 +151,11 @@ pub fn gen_history(rng: &mut Rng) -> (Vec<Op>, &'static str) {
         12 => "upmerge",
         _ => "deepsym",
     };
-    if stream == "latered" {
+    if stream == "latered" || stream == "latered2" {
         // Query after every union, as in the other streams
         let mut ops = Vec::new();
-        for o in gen_late_redundancy(rng) {
+        let raw = if stream == "latered" { gen_late_redundancy(rng) } else { gen_late_redundancy2(rng) };
+        for o in raw {
             let is_union = matches!(o, Op::Union(..));
             let is_query = matches!(o, Op::Query);
             if !is_query {
@@ -749,6 +752,41 @@ pub fn gen_late_redundancy(rng: &mut Rng) -> Vec<Op> {
     ops
 }
 
+
+/// like `gen_late_redundancy`, but the parent mentions the slot that becomes redundant only through its child (`h(p(x,y))`),
+/// the class of `p` has been merged away (frozen with both slots) *before* the leader learns that `y` is redundant, and the
+/// same parent over a renamed copy of the child (`h(p(x,z))`) is tracked too — equal only through the late redundancy
+pub fn gen_late_redundancy2(rng: &mut Rng) -> Vec<Op> {
+    use crate::terms::CField as F;
+    let leaf = |v: usize, sl: &[u32]| ATerm { v, fields: sl.iter().map(|s| F::Slot(*s)).collect(), children: vec![] };
+    let un = |v: usize, a: ATerm| ATerm { v, fields: vec![F::App], children: vec![a] };
+    let bin = |v: usize, a: ATerm, b: ATerm| ATerm { v, fields: vec![F::App, F::App], children: vec![a, b] };
+    let (x, y, z) = (4u32, 8u32, 2u32);
+    let (pv, qv) = if rng.chance(1, 2) { (7usize, 11usize) } else { (11usize, 7usize) };
+    let p = |a: u32, b: u32| leaf(pv, &[a, b]);
+    let q = |a: u32, b: u32| leaf(qv, &[a, b]);
+    let r = leaf(10, &[x]);
+    let wrap = |rng: &mut Rng, c: ATerm| if rng.chance(2, 3) { un(13, c) } else { bin(14, c.clone(), c) };
+    let kind = rng.below(2);
+    let par = |c: ATerm| if kind == 0 { un(13, c) } else { bin(4, c, leaf(2, &[x])) };
+    // 0: f(p(x,y))   1: p(x,y)   2: q(x,y)   3..: parents of q (so that p is the class that dies)   then r(x), f(p(x,z))
+    let mut terms = vec![par(p(x, y)), p(x, y), q(x, y)];
+    for _ in 0..rng.range(0, 3) {
+        let w = wrap(rng, q(x, y));
+        terms.push(w);
+    }
+    terms.push(r);
+    let ri = terms.len() - 1;
+    terms.push(par(p(x, z)));
+    if rng.chance(1, 2) {
+        terms.push(par(q(x, z)));
+    }
+    let mut ops: Vec<Op> = terms.into_iter().map(Op::Add).collect();
+    ops.push(if rng.chance(1, 2) { Op::Union(1, 2) } else { Op::Union(2, 1) });
+    ops.push(if rng.chance(1, 2) { Op::Union(2, ri) } else { Op::Union(ri, 1) });
+    ops.push(Op::Query);
+    ops
+}
 
 pub fn exec_ops(ops: Vec<Op>, stream: &str, check_each: bool) -> Case {
     let line = format!("eg {};{}", "main", enc_ops(&ops));
